@@ -191,3 +191,11 @@ func (m *Machine) Exists(name string, arity int) bool {
 	_, ok := m.db[key(name, arity)]
 	return ok
 }
+
+// RealBudget is the step budget granted to the real engine for a run the reference finished with these
+// statistics: generous multiples of the inferences and of the clauses tried (the engine pays a few steps
+// per clause of a predicate whether or not the head matches, so the cost of an inference grows with the
+// size of the predicate).
+func (s Stats) RealBudget() int64 {
+	return int64(200*s.Steps + 60*s.ClauseTries + 20000)
+}
